@@ -192,6 +192,9 @@ func mpEither(P *Program, R *Report, rule, construct, what string, mk func() *Mu
 func returnsOf(fn *ssa.Function) []*ssa.Return {
 	var out []*ssa.Return
 	for _, b := range fn.Blocks {
+		if fn.Recover != nil && b == fn.Recover {
+			continue // not a normal exit
+		}
 		if len(b.Instrs) > 0 {
 			if r, ok := b.Instrs[len(b.Instrs)-1].(*ssa.Return); ok {
 				out = append(out, r)
